@@ -45,10 +45,23 @@ def Camera.setViewport (c : Camera α) (bounds : Rect) : Outcome (Camera α) :=
                  viewport := Mat.viewport (l : α) (t : α) (r : α) (b : α) }
   | _ => .panic "unreachable: bounded ∩ bounded should be bounded"
 
-/-- cam.rs:98 `Camera::perspective(focal_ratio, near..far)`: aspect ratio from the current `dims`.
-A zero height makes the ratio infinite or NaN in f32: its own outcome, not a value. -/
+/-- cam.rs:98 `Camera::perspective(focal_ratio, near..far)`: aspect ratio `dims.0 as f32 / dims.1 as f32` from the
+current `dims`, then `perspective()` with its four asserts in source order (mat.rs:606-609).
+**Zero height** (`dims.1 = 0`, e.g. after a viewport with an empty vertical extent) is outside the exact model, so it is
+made explicit, following what the f32 code does:
+* `dims.0 > 0`: the ratio is `+inf`, which *passes* `assert!(aspect_ratio > 0.0)`; if the other three asserts pass too,
+  Rust **returns a matrix with `e11 = inf`** — no panic. The model reports that as the outcome `nonfinite: …`
+  (the same convention as `orthographic` with a zero extent), never as a value and never as a Rust panic;
+* `dims.0 = 0`: the ratio is `0/0 = NaN`, `NaN > 0.0` is false: the aspect-ratio assert panics (after the focal one).
+All theorems about `Camera.perspective` are stated for the `.ok` outcome, which implies `dims.1 ≠ 0`
+(`camera_perspective_ok_height_pos`). -/
 def Camera.perspective (c : Camera α) (focal near far : α) : Outcome (Camera α) :=
-  if c.dims.2 = 0 then .panic "degenerate: zero-height dims give a non-finite aspect ratio"
+  if c.dims.2 = 0 then
+    if !decide (0 < focal) then .panic "focal ratio must be positive"
+    else if c.dims.1 = 0 then .panic "aspect ratio must be positive"
+    else if !decide (0 < near) then .panic "near must be positive"
+    else if !decide (near < far) then .panic "far must be greater than near"
+    else .panic "nonfinite: zero-height dims give an infinite aspect ratio (perspective() returns e11 = inf)"
   else
     match Mat.perspective focal ((c.dims.1 : α) / (c.dims.2 : α)) near far with
     | .ok p => .ok { c with project := p }
